@@ -18,6 +18,15 @@ THEOREMS = [
     'C14_colonless_role_loses_context', 'C14_instance_of_loses_context',
 ]
 
+
+def patient(fn, *args, seconds=5):
+    """timed(), but a first expiry is retried once with a long budget: on a loaded machine a
+    millisecond call can be descheduled for seconds; only a second expiry counts as a hang"""
+    try:
+        return timed(fn, *args, seconds=seconds)
+    except Timeout:
+        return timed(fn, *args, seconds=120)
+
 # ---------------------------------------------------------------------------------------
 # generators: well-formed trees
 
@@ -164,8 +173,13 @@ def run(chk):
             continue
         items = spec[1]['items']
         try:
-            g = timed(layout.interpret, Tree(node), m, seconds=5)
-            d = timed(impl_diag, g, seconds=10)
+            g = patient(layout.interpret, Tree(node), m)
+            if rng.random() < .5:
+                # history: a graph with the SAME ordered triples and top but no markers is queried
+                # first, so an answer cached by triples instead of by markers is exposed
+                patient(impl_diag, Graph(g.triples, top=g.top))
+                chk.stat('primed-with-markerless-twin')
+            d = patient(impl_diag, g)
         except Timeout:
             chk.fail('raises', 'diagnostics do not terminate on a decoded graph', case)
             continue
@@ -223,7 +237,7 @@ def run(chk):
         chk.stat('graph-' + kind)
         chk.count((kind, repr(case['triples']), repr(case['epidata']), repr(g._top)))
         try:
-            d = timed(impl_diag, g, trs, seconds=10)
+            d = patient(impl_diag, g, trs)
         except Timeout:
             chk.fail('raises', 'diagnostics do not terminate', case)
             continue
